@@ -187,16 +187,20 @@ func (evm *EVM) Call(caller ContractRef, addr common.Address, input []byte, gas 
 		to       = AccountRef(addr)
 		snapshot = evm.StateDB.Snapshot()
 	)
-	if !evm.StateDB.Exist(addr) {
-		if PrecompiledContractsByzantium[addr] == nil && value.Sign() == 0 {
-			// Calling a non existing account without value: there is nothing to run and
-			// nothing to transfer, and the state (also under STATICCALL) must not change.
+	if exist := evm.StateDB.Exist(addr); !exist && value.Sign() == 0 {
+		// Calling a non existing account without value: nothing is transferred and the
+		// state (also under STATICCALL) must not change, so no account is created.
+		if PrecompiledContractsByzantium[addr] == nil {
+			// there is nothing to run either
 			return nil, gas, nil
 		}
-		evm.StateDB.CreateAccount(addr)
+		// a precompile needs no account to run
+	} else {
+		if !exist {
+			evm.StateDB.CreateAccount(addr)
+		}
+		evm.Transfer(evm.StateDB, caller.Address(), to.Address(), value)
 	}
-
-	evm.Transfer(evm.StateDB, caller.Address(), to.Address(), value)
 
 	// Initialise a new contract and set the code that is to be used by the EVM.
 	// The contract is a scoped environment for this execution context only.
